@@ -263,6 +263,8 @@ class Engine:
             t = cell[1]
             if t[0] == "pconst" and t in self._pconst:
                 return self._pconst[t]
+            if t[0] == "tmp":
+                return t[1]
             if is_const(t) and isinstance(t[2], tuple) and t[2][0] == "s" and len(t[2]) > 3 and t[2][3] is not None:
                 v = self.promoted_value(t[2][2], t[2][3])
                 if v is not None:
@@ -1031,6 +1033,13 @@ class Engine:
         """results: list of (state, value | ('panic', why))"""
         out = []
         for (s2, val) in results:
+            if isinstance(val, tuple) and val and val[0] == "skip-iteration":
+                # an iterator adaptor (filter) rejected the element: the loop goes on with the next one
+                s2.events.append({"kind": "backedge", "header": None, "body": fr.body["id"], "seq": s2.seq,
+                                  "why": "element filtered out"})
+                s2.seq += 1
+                self._end(s2, "backedge")
+                continue
             if isinstance(val, tuple) and val and val[0] == "panic":
                 s2.events.append({"kind": "panic", "why": val[1], "callee": fn["path"], "site": site,
                                   "seq": s2.seq, "body": fr.body["id"]})
@@ -1204,6 +1213,210 @@ def m_opt_map(eng, st, fr, fn, args, t):
     return out
 
 
+RES_VARIANTS = (("Ok", "0"), ("Err", "1"))
+
+
+def _fork_result(eng, st, v):
+    """-> list of (state, 'Ok'|'Err', payload)"""
+    if v[0] == "agg" and v[1] == "adt" and v[3] in ("Ok", "Err"):
+        return [(st, v[3], v[4][0][1])]
+    d = ("discr", v, RES_VARIANTS)
+    k = eng.decide_switch(st, d)
+    out = []
+    for name, val in (("Ok", 0), ("Err", 1)):
+        if k is not None and k != val:
+            continue
+        s2 = st if k is not None else st.fork()
+        if k is None:
+            s2.known[d] = ("is", val)
+            s2.conds.append((d, val, "model"))
+        out.append((s2, name, ("field", ("variant", v, name), "0")))
+    return out
+
+
+def _fork_bool(eng, st, b):
+    """-> list of (state, 0|1) for the boolean term b"""
+    k = eng.decide_switch(st, b)
+    if k is not None:
+        return [(st, int(k))]
+    if b[0] == "not":
+        return [(s2, 1 - v) for (s2, v) in _fork_bool(eng, st, b[1])]
+    out = []
+    for val in (1, 0):
+        s2 = st.fork()
+        s2.known[b] = ("is", val)
+        eng.propagate(s2, b, val)
+        s2.conds.append((b, val, "model"))
+        out.append((s2, val))
+    return out
+
+
+def _tmp_ref(st, v):
+    """a reference to a temporary holding v (for closures that take their argument by reference)"""
+    cell = ("M", ("tmp", v))
+    st.store[cell] = v
+    return ("ref", cell, (), False)
+
+
+def m_opt_filter(eng, st, fr, fn, args, t):
+    """Option::filter(o, pred) with a closure literal"""
+    body = eng.closure_body(args[1])
+    if body is None or eng.loops(body):
+        return None
+    out = []
+    for (s2, var, payload) in _fork_option(eng, st, args[0]):
+        if var == "None":
+            out.append((s2, mk_none()))
+            continue
+        for (s3, rv) in eng.run_sub(s2, body, [args[1], _tmp_ref(s2, payload)], fr.depth + 1):
+            for (s4, b) in _fork_bool(eng, s3, rv):
+                out.append((s4, mk_some(payload) if b else mk_none()))
+    return out
+
+
+def m_opt_cloned(eng, st, fr, fn, args, t):
+    """Option<&T>::cloned / copied"""
+    out = []
+    for (s2, var, payload) in _fork_option(eng, st, args[0]):
+        out.append((s2, mk_none() if var == "None" else mk_some(eng.pointee_of(s2, payload))))
+    return out
+
+
+def m_opt_and_then(eng, st, fr, fn, args, t):
+    body = eng.closure_body(args[1])
+    if body is None or eng.loops(body):
+        return None
+    out = []
+    for (s2, var, payload) in _fork_option(eng, st, args[0]):
+        if var == "None":
+            out.append((s2, mk_none()))
+            continue
+        out.extend(eng.run_sub(s2, body, [args[1], payload], fr.depth + 1))
+    return out
+
+
+def m_opt_unwrap_or_else(eng, st, fr, fn, args, t):
+    body = eng.closure_body(args[1])
+    if body is None or eng.loops(body):
+        return None
+    out = []
+    for (s2, var, payload) in _fork_option(eng, st, args[0]):
+        if var == "Some":
+            out.append((s2, payload))
+            continue
+        out.extend(eng.run_sub(s2, body, [args[1]], fr.depth + 1))
+    return out
+
+
+def m_opt_map_or(eng, st, fr, fn, args, t):
+    """Option::map_or(o, default, f)"""
+    body = eng.closure_body(args[2])
+    if body is None or eng.loops(body):
+        return None
+    out = []
+    for (s2, var, payload) in _fork_option(eng, st, args[0]):
+        if var == "None":
+            out.append((s2, args[1]))
+            continue
+        out.extend(eng.run_sub(s2, body, [args[2], payload], fr.depth + 1))
+    return out
+
+
+def m_res_unwrap_or_else(eng, st, fr, fn, args, t):
+    """Result::unwrap_or_else(r, f)"""
+    body = eng.closure_body(args[1])
+    if body is None or eng.loops(body):
+        return None
+    out = []
+    for (s2, var, payload) in _fork_result(eng, st, args[0]):
+        if var == "Ok":
+            out.append((s2, payload))
+            continue
+        out.extend(eng.run_sub(s2, body, [args[1], payload], fr.depth + 1))
+    return out
+
+
+def m_saturating_sub(eng, st, fr, fn, args, t):
+    """unsigned a.saturating_sub(b) = max(a, b) - b"""
+    sty = fn.get("impl_self") or fn.get("self_ty") or ""
+    ty = sty if sty in ("usize", "u8", "u16", "u32", "u64", "u128") else None
+    if ty is None:
+        for cand in ("usize", "u8", "u16", "u32", "u64", "u128"):
+            if "<impl %s>" % cand in fn.get("path", ""):
+                ty = cand
+    if ty is None:
+        return None
+    return _ret(st, ("bin", "Sub", ("max", args[0], args[1]), args[1], ty))
+
+
+ITER = "core::iter::traits::iterator::Iterator"
+
+
+def _adaptor(v):
+    """(kind, base, closure) when v is Iterator::map/filter(base, closure literal)"""
+    if isinstance(v, tuple) and v and v[0] == "call" and v[1] in (ITER + "::map", ITER + "::filter") and len(v[2]) == 2:
+        return (v[1].rsplit("::", 1)[1], v[2][0], v[2][1])
+    return None
+
+
+def m_iter_next(eng, st, fr, fn, args, t):
+    """next() on an iterator built with .filter(closure) / .map(closure): the closures are evaluated on the element the
+    underlying iterator yields; an element rejected by a filter ends this loop iteration (the adaptor goes on to the next)"""
+    a = args[0]
+    if a[0] != "ref":
+        return None
+    v = eng.read_loc(st, a[1], a[2])
+    hdr = None
+    inner = v
+    if v[0] == "loop":
+        hdr, inner = v[1], v[3]
+    if _adaptor(inner) is None:
+        return None
+    site = t.get("span")
+
+    def nxt(s, itv):
+        ad = _adaptor(itv)
+        if ad is None:
+            base = ("loop", hdr, ("iter-base", itv), itv) if hdr is not None else itv
+            f2 = {"id": ITER + "::next", "path": ITER + "::next", "name": "next", "krate": "core", "trait": ITER,
+                  "substs": [], "self_ty": "?"}
+            descs = (("&mut", base),)
+            res = ("call", ITER + "::next", descs, s.seq)
+            s.events.append({"kind": "call", "callee": ITER + "::next", "fn": f2, "args": [], "descs": descs, "site": site,
+                             "seq": s.seq, "result": res, "depth": fr.depth, "body": fr.body["id"]})
+            s.seq += 1
+            return [(s, res)]
+        kind, base, clo = ad
+        body = eng.closure_body(clo)
+        if body is None or eng.loops(body):
+            raise _NoModel()
+        out = []
+        for (s1, r) in nxt(s, base):
+            if isinstance(r, tuple) and r and r[0] == "skip-iteration":
+                out.append((s1, r))
+                continue
+            for (s2, var, payload) in _fork_option(eng, s1, r):
+                if var == "None":
+                    out.append((s2, mk_none()))
+                elif kind == "map":
+                    for (s3, rv) in eng.run_sub(s2, body, [clo, payload], fr.depth + 1):
+                        out.append((s3, mk_some(rv)))
+                else:
+                    for (s3, rv) in eng.run_sub(s2, body, [clo, _tmp_ref(s2, payload)], fr.depth + 1):
+                        for (s4, b) in _fork_bool(eng, s3, rv):
+                            out.append((s4, mk_some(payload) if b else ("skip-iteration",)))
+        return out
+
+    try:
+        return nxt(st.fork(), inner)
+    except _NoModel:
+        return None
+
+
+class _NoModel(Exception):
+    pass
+
+
 def m_opt_default(eng, st, fr, fn, args, t):
     return _ret(st, mk_none())
 
@@ -1269,7 +1482,8 @@ def m_as_slice(eng, st, fr, fn, args, t):
 
 
 def m_into_iter_identity(eng, st, fr, fn, args, t):
-    return None
+    """the blanket `impl<I: Iterator> IntoIterator for I`: into_iter(it) is it"""
+    return _ret(st, args[0])
 
 
 def m_maplike_get(eng, st, fr, fn, args, t):
@@ -1336,6 +1550,18 @@ DEFAULT_MODELS = {
     "core::option::Option::<T>::map": m_opt_map,
     "<core::option::Option<T> as core::default::Default>::default": m_opt_default,
     "core::option::Option::<T>::is_some_and": m_opt_map,
+    "core::option::Option::<T>::filter": m_opt_filter,
+    "core::option::Option::<&T>::cloned": m_opt_cloned,
+    "core::option::Option::<&T>::copied": m_opt_cloned,
+    "core::option::Option::<T>::and_then": m_opt_and_then,
+    "core::option::Option::<T>::unwrap_or_else": m_opt_unwrap_or_else,
+    "core::option::Option::<T>::map_or": m_opt_map_or,
+    "core::result::Result::<T, E>::unwrap_or_else": m_res_unwrap_or_else,
+    "core::num::<impl usize>::saturating_sub": m_saturating_sub,
+    "core::num::<impl u32>::saturating_sub": m_saturating_sub,
+    "core::num::<impl u64>::saturating_sub": m_saturating_sub,
+    "core::iter::traits::iterator::Iterator::next": m_iter_next,
+    "<I as core::iter::traits::collect::IntoIterator>::into_iter": m_into_iter_identity,
     "core::clone::Clone::clone": m_clone,
     "core::cmp::PartialEq::eq": m_eq,
     "core::cmp::PartialEq::ne": m_eq,
